@@ -81,6 +81,21 @@ def native_checks(run, n_cases):
                 want = given.get(nm, 0.0 if which == "vector" else 1.0)
                 if cell != want:
                     fails.append(f"{which} {names}: value for {nm!r} is {cell}, expected {want}")
+            # constructions must not share state: a second and third object of the same class, then the first one again
+            snap = obj.data.copy()
+            obj2 = cls()
+            other = {nm: float(rng.randint(2, 9)) for nm in names if rng.random() < 0.5}
+            obj3 = cls(**other)
+            for idx, nm in enumerate(names):
+                d2 = obj2.data[idx, 0] if which == "vector" else obj2.data[idx, idx]
+                d3 = obj3.data[idx, 0] if which == "vector" else obj3.data[idx, idx]
+                dflt = 0.0 if which == "vector" else 1.0
+                if d2 != dflt:
+                    fails.append(f"{which} {names}: a default-constructed object created after {given} has {nm!r} = {d2}, expected the default {dflt}")
+                if d3 != other.get(nm, dflt):
+                    fails.append(f"{which} {names}: an object created from {other} after {given} has {nm!r} = {d3}, expected {other.get(nm, dflt)}")
+            if not np.array_equal(obj.data, snap):
+                fails.append(f"{which} {names}: constructing further objects changed an existing one")
             exp_shape = (k, 1) if which == "vector" else (k, k)
             if obj.data.shape != exp_shape:
                 fails.append(f"{which} shape {obj.data.shape} != {exp_shape}")
@@ -162,6 +177,41 @@ def triage(run, rep):
         run.findings.append(f)
 
 
+def cxx_fragments(run):
+    """C++ half, for ALL programs: the named-layout fragments of the generator (contracts/cppfragments.py)."""
+    from contracts import cppfragments
+
+    items = [(c, {}) for c in cppfragments.contracts()]
+    bad = []
+    for (c, _), rep in zip(items, run.verify_many(items)):
+        for ob, model, definitive in driver.refuted(run, rep):
+            bad.append((rep, ob, model, definitive))
+    if not bad:
+        return
+    # native confirmation: per-program layout validation of generated code (accessor reads the slot its own named option fills)
+    from checks import cxx_generated
+
+    confirm = None
+    for t, (sc, shp) in enumerate(cxx_generated.corpus(run.seed, 2)):
+        run.native_runs += 1
+        try:
+            probs, header, source = cxx_generated.validate_program(driver.PropertyRun("C13", "quick", run.seed), sc, f"layout{t}", prefix="C13")
+        except Exception as e:
+            probs = []
+            run.notes.append(f"native layout validation failed to run: {e!r}")
+        texts = [(x[1] if isinstance(x, tuple) else str(x)) for x in probs]
+        lay = [p for p in texts if "layout" in p or "accessor" in p or "well_formed" in p]
+        if lay:
+            confirm = (lay[0], {"shape": list(shp), "seed": run.seed + 31 * t, "cse": True, "share_reading": True, "rational": t % 3 == 1, "transcendental": t % 4 == 3})
+            break
+    for rep, ob, model, definitive in bad:
+        if confirm is None and not definitive:
+            run.undecided.append(ob.name)
+            continue
+        what = f"{ob.name} refuted ({getattr(ob, 'note', '') or 'generator fragment contract'})" + (f"; generated program: {confirm[0]}" if confirm else "")
+        run.findings.append(Finding(ob.name, rep.key.split(":")[-1], what, {"language": "c++", "function": rep.key, "inputs": {"cxx_layout": confirm[1]} if confirm else None, "counter_model": smt.model_to_dict(model, 8) if model is not None else None}, bool(confirm), theory=ob.theory))
+
+
 def check(run):
     for c in common.named_array_contracts() + [common.FromData("vector"), common.FromData("covariance")] + [common.FromDict(w, k) for w in ("vector", "covariance") for k in ("Str", "Sym")]:
         rep = run.verify(c, common.COMMON_APPLY)
@@ -176,6 +226,7 @@ def check(run):
         rep = run.verify(c, pyekf.filter_callees())
         triage(run, rep)
     renaming_lemma(run)
+    cxx_fragments(run)
     refuted = bool(run.findings)
     if run.tier == "thorough" or refuted or run.undecided or any(r.status != "ok" for r in run.reports):
         before = len(run.findings)
@@ -217,7 +268,11 @@ def check(run):
 
 
 def replay_file(payload):
-    inp = payload.get("inputs", {})
+    inp = payload.get("inputs") or {}
+    if inp.get("cxx_layout"):
+        from checks import C02
+
+        return C02.replay_file({"inputs": inp["cxx_layout"]})
     if "shape" in inp and "container" in inp:
         from replay import kalman
 
